@@ -455,6 +455,10 @@ def replay_in_fresh_interpreter(check, path):
     except subprocess.TimeoutExpired:
         return False, 'replay timed out'
     out = p.stdout.decode('utf-8', 'replace')
+    if p.returncode == 1 and 'REPLAY-DIFFERENT' in out and ('clause=hang' in out or '(file says hang)' in out):
+        # non-termination is judged against wall clocks; whether it surfaces as `hang`, `clock` or as a
+        # second parse that differs from the first can vary, the fact that the case violates does not
+        return True, out[-2000:]
     return p.returncode == 1 and 'REPLAY-REPRODUCED' in out, out[-2000:]
 
 
